@@ -5,9 +5,11 @@
   (`process`), the per-family RIB flag and paths (`Tabs`), and the glue (`applyOuts`, `step`).
   `run cfg evs` is the list of observations of a whole history; `stateAfter cfg evs` the daemon
   state it leaves.  "In-domain history" (`InDomain cfg evs`) is the decidable side condition of the
-  property's quantifier made explicit: End-of-RIB only from a peer with an established GR session,
-  timer expiry only after the timer was started, with a configured duration and while some helper
-  is still awaited (see Spec.lean).  The statements marked (all histories) need no side condition.
+  property's quantifier made explicit; it excludes only what cannot happen: an End-of-RIB from a
+  helper that is still waited for but has no established GR session, and a timer expiry while
+  helpers are waited for although the timer was never started or is disabled (see Spec.lean `wf`).
+  An End-of-RIB from a peer nobody waits for and a stale timer expiry are in the domain (they must
+  change nothing).  The statements marked (all histories) need no side condition.
 
   Proofs: `Proofs.lean` (what one `process` call does to the (helper, family) pairs),
   `Sim.lean` (simulation against the reference bookkeeping of Spec.lean).
@@ -32,21 +34,76 @@ def exEvs : List Ev :=
 /-- every event is in the domain, judged by the reference bookkeeping -/
 def InDomainFrom (cfg : Cfg) : R → List Ev → Bool
   | _, [] => true
-  | r, e :: es => wf cfg r e && InDomainFrom cfg (advance r e) es
+  | r, e :: es => wf cfg r e && InDomainFrom cfg (advance cfg r e) es
 
 def InDomain (cfg : Cfg) (evs : List Ev) : Bool := InDomainFrom cfg (Spec.init cfg) evs
 
-def refAfterFrom : R → List Ev → R
+def refAfterFrom (cfg : Cfg) : R → List Ev → R
   | r, [] => r
-  | r, e :: es => refAfterFrom (advance r e) es
+  | r, e :: es => refAfterFrom cfg (advance cfg r e) es
 
 /-- the daemon state after a history -/
 def stateAfter (cfg : Cfg) (evs : List Ev) : St := (runFrom (initObs cfg).1 evs).1
 
 example : InDomain exCfg exEvs = true := by decide
 
-theorem rel_after_from (cfg : Cfg) (evs : List Ev) (s : St) (r : R) (hr : Rel s r)
-    (h : InDomainFrom cfg r evs = true) : Rel (runFrom s evs).1 (refAfterFrom r evs) := by
+/-- a history that ends by timer expiry while helper 1 never showed up (witness for §3) -/
+def exTimerEvs : List Ev := [.ins 0 0 1, .rd (.est 0 [0, 1]), .ins 1 1 2, .rd .timer]
+example : InDomain exCfg exTimerEvs = true := by decide
+
+/-- in the domain although "unexpected": End-of-RIB from a peer nobody waits for, a timer expiry
+    after everything completed, a timer expiry when nothing was ever deferred -/
+example : InDomain exCfg [.rd (.est 3 []), .rd (.eor 3 0), .rd (.eor 7 1)] = true := by decide
+example : InDomain exCfg (exEvs ++ [.rd .timer, .rd (.eor 0 0)]) = true := by decide
+example : InDomain { peers := [], dur := none } [.rd .timer] = true := by decide
+/-- outside: the timer cannot fire before it was started, nor when it is disabled -/
+example : InDomain exCfg [.rd .timer] = false := by decide
+example : InDomain { peers := [(0, [0])], dur := some 0 } [.rd (.est 0 [0]), .rd .timer] = false := by decide
+
+/-! ### the checker is not a rubber stamp: tampered observations are refused -/
+
+def mapNth (n : Nat) (f : Obs → Obs) : List Obs → List Obs
+  | [] => []
+  | o :: os => match n with
+      | 0 => f o :: os
+      | n + 1 => o :: mapNth n f os
+
+/-- (1a) the timer request removed from the step at which the first helper establishes -/
+example : Spec.check exCfg exEvs
+    (mapNth 2 (fun o => { o with outs := o.outs.filter (fun x => !isStartTimer x) }) (run exCfg exEvs))
+    = .fail 2 "timer-start" := by decide
+/-- (1a) ... or requested with another duration -/
+example : Spec.check exCfg exEvs
+    (mapNth 2 (fun o => { o with outs := o.outs.map fun x => if isStartTimer x then .startTimer none else x })
+      (run exCfg exEvs)) = .fail 2 "timer-start" := by decide
+/-- (1a) the timer not armed although requested -/
+example : Spec.check exCfg exEvs (mapNth 2 (fun o => { o with timer := false }) (run exCfg exEvs))
+    = .fail 2 "timer-armed" := by decide
+/-- (1b) the machine reported `completed` (and still installed) while families are held -/
+example : Spec.check exCfg exEvs (mapNth 2 (fun o => { o with tag := .completed, pending := [] }) (run exCfg exEvs))
+    = .fail 2 "completed-still-installed" := by decide
+/-- (1b) the machine gone while helpers are still waited for -/
+example : Spec.check exCfg exEvs
+    (mapNth 2 (fun o => { o with tag := .absent, pending := [], installed := false }) (run exCfg exEvs))
+    = .fail 2 "machine-gone-while-waited" := by decide
+/-- (1c) a premature release after `est 3 (); eor 3 0` (peer 3 is nobody's helper) is refused -/
+example : Spec.check exCfg [.rd (.est 3 []), .rd (.eor 3 0)]
+    (mapNth 2 (fun o => { o with outs := [.famComplete 0], flags := [1] })
+      (run exCfg [.rd (.est 3 []), .rd (.eor 3 0)])) = .fail 2 "released-early" := by decide
+/-- (1d) start-up without the flags, or without the machine -/
+example : Spec.check exCfg [] (mapNth 0 (fun o => { o with flags := [] }) (run exCfg []))
+    = .fail 0 "released-early" ∨
+    Spec.check exCfg [] (mapNth 0 (fun o => { o with flags := [] }) (run exCfg []))
+    = .fail 0 "startup-not-deferred" := by decide
+example : Spec.check exCfg [] (mapNth 0 (fun o => { o with tag := .absent, pending := [], installed := false })
+    (run exCfg [])) = .fail 0 "machine-gone-while-waited" := by decide
+/-- a release announced with the flags no neighbour acts on -/
+example : Spec.check exCfg exEvs
+    (mapNth 3 (fun o => { o with changes := o.changes.map fun c => { c with kind := .mute } }) (run exCfg exEvs))
+    = .fail 3 "release-not-exact" := by decide
+
+theorem rel_after_from (cfg : Cfg) (evs : List Ev) (s : St) (r : R) (hr : Rel cfg s r)
+    (h : InDomainFrom cfg r evs = true) : Rel cfg (runFrom s evs).1 (refAfterFrom cfg r evs) := by
   induction evs generalizing s r with
   | nil => exact hr
   | cons e es ih =>
@@ -55,7 +112,7 @@ theorem rel_after_from (cfg : Cfg) (evs : List Ev) (s : St) (r : R) (hr : Rel s 
 
 /-- After an in-domain history the model state and the reference bookkeeping are related. -/
 theorem rel_after (cfg : Cfg) (evs : List Ev) (h : InDomain cfg evs = true) :
-    Rel (stateAfter cfg evs) (refAfterFrom (Spec.init cfg) evs) :=
+    Rel cfg (stateAfter cfg evs) (refAfterFrom cfg (Spec.init cfg) evs) :=
   rel_after_from cfg evs _ _ (init_ok cfg).2 h
 
 /-! ## 1. `deferring_silent`: while a family is deferred no change for it is emitted -/
@@ -66,28 +123,28 @@ theorem deferring_silent (t : Tabs) (p : Peer) (f : Fam) (n : Nat) (h : (t f).de
   refine ⟨by simp [insert, h], ?_, by simp [dropPeer, h]⟩
   by_cases hm : (n, p) ∈ (t f).paths <;> simp [remove, hm, h]
 
-/-- (all states, all events) A change is only ever emitted for a family that is not deferring once
-    the step is done: either it was not deferred, or this very step released it. -/
+/-- (all states, all events) After a step, the family of every change the step emitted is not
+    deferring. -/
 theorem deferring_silent_step (s : St) (e : Ev) (c : Change) (hc : c ∈ (step s e).2.changes) :
     ((step s e).1.tabs c.fam).deferring = false := by
   cases e with
   | rd i =>
       cases hsd : s.sd with
-      | none => simp [step, hsd] at hc
+      | none => simp [step, hsd, obsOf] at hc
       | some m =>
-          simp only [step, hsd] at hc ⊢
+          simp only [step, hsd, obsOf] at hc ⊢
           obtain ⟨h1, h2, _, _⟩ := applyOuts_spec { s with sd := some (process m i).1 } (process m i).2
           obtain ⟨_, e2, e3⟩ := endDeferralFamilies_spec (relFams (process m i).2) s.tabs
           rw [h2, e3] at hc
           rw [h1, e2, if_pos (mem_flatMap_announce_fam hc)]
   | ins p f n =>
-      simp only [step, step.obsT, insert] at hc ⊢
+      simp only [step, obsOf, insert] at hc ⊢
       by_cases hd : (s.tabs f).deferring = true
       · simp [hd] at hc
       · simp only [hd, Bool.false_eq_true, ↓reduceIte, List.mem_singleton] at hc
         subst hc; simpa using hd
   | rm p f n =>
-      simp only [step, step.obsT, remove] at hc ⊢
+      simp only [step, obsOf, remove] at hc ⊢
       by_cases hm : (n, p) ∈ (s.tabs f).paths
       · by_cases hd : (s.tabs f).deferring = true
         · simp [hm, hd] at hc
@@ -95,7 +152,46 @@ theorem deferring_silent_step (s : St) (e : Ev) (c : Change) (hc : c ∈ (step s
           subst hc; simpa [hm] using hd
       · simp [hm] at hc
   | drop p f =>
-      simp only [step, step.obsT, dropPeer] at hc ⊢
+      simp only [step, obsOf, dropPeer] at hc ⊢
+      by_cases hd : (s.tabs f).deferring = true
+      · simp [hd] at hc
+      · simp only [hd, Bool.false_eq_true, ↓reduceIte, List.mem_map] at hc
+        obtain ⟨n, _, rfl⟩ := hc; simpa using hd
+
+/-- (all states, all events) ... more precisely: a change is emitted either for a family that was not
+    deferring before the step, or by the very machine input whose outputs release that family. -/
+theorem change_free_or_released (s : St) (e : Ev) (c : Change) (hc : c ∈ (step s e).2.changes) :
+    (s.tabs c.fam).deferring = false ∨
+      ∃ i m, e = .rd i ∧ s.sd = some m ∧ c.fam ∈ relFams (process m i).2 := by
+  cases e with
+  | rd i =>
+      cases hsd : s.sd with
+      | none => simp [step, hsd, obsOf] at hc
+      | some m =>
+          simp only [step, hsd, obsOf] at hc
+          obtain ⟨_, h2, _, _⟩ := applyOuts_spec { s with sd := some (process m i).1 } (process m i).2
+          obtain ⟨_, _, e3⟩ := endDeferralFamilies_spec (relFams (process m i).2) s.tabs
+          rw [h2, e3] at hc
+          exact Or.inr ⟨i, m, rfl, rfl, mem_flatMap_announce_fam hc⟩
+  | ins p f n =>
+      left
+      simp only [step, obsOf, insert] at hc
+      by_cases hd : (s.tabs f).deferring = true
+      · simp [hd] at hc
+      · simp only [hd, Bool.false_eq_true, ↓reduceIte, List.mem_singleton] at hc
+        subst hc; simpa using hd
+  | rm p f n =>
+      left
+      simp only [step, obsOf, remove] at hc
+      by_cases hm : (n, p) ∈ (s.tabs f).paths
+      · by_cases hd : (s.tabs f).deferring = true
+        · simp [hm, hd] at hc
+        · simp only [List.contains_iff_mem, hm, ↓reduceIte, hd, Bool.false_eq_true, List.mem_singleton] at hc
+          subst hc; simpa using hd
+      · simp [hm] at hc
+  | drop p f =>
+      left
+      simp only [step, obsOf, dropPeer] at hc
       by_cases hd : (s.tabs f).deferring = true
       · simp [hd] at hc
       · simp only [hd, Bool.false_eq_true, ↓reduceIte, List.mem_map] at hc
@@ -106,7 +202,7 @@ theorem deferring_silent_step (s : St) (e : Ev) (c : Change) (hc : c ∈ (step s
 /-- The families an output list releases (`FamilyDeferralComplete*` then `EndDeferral(remaining)`)
     are exactly those held by some pending helper before the input and by none after it. -/
 theorem family_complete_iff (cfg : Cfg) (evs : List Ev) (h : InDomain cfg evs = true) (i : RIn)
-    (hi : wf cfg (refAfterFrom (Spec.init cfg) evs) (.rd i) = true) (m : RInner)
+    (hi : wf cfg (refAfterFrom cfg (Spec.init cfg) evs) (.rd i) = true) (m : RInner)
     (hm : (stateAfter cfg evs).sd = some m) (f : Fam) :
     f ∈ relFams (process m i).2 ↔
       (holdsP f (pendingOf m) ∧ ¬ holdsP f (pendingOf (process m i).1)) := by
@@ -133,12 +229,12 @@ theorem timer_ends_all (pend : Pending) :
 /-- After an in-domain history, an in-domain timer expiry leaves no family deferring and removes
     the machine (`selection_deferral = None`, the restarting flag). -/
 theorem timer_clears_everything (cfg : Cfg) (evs : List Ev) (h : InDomain cfg evs = true)
-    (hi : wf cfg (refAfterFrom (Spec.init cfg) evs) (.rd .timer) = true) :
+    (hi : wf cfg (refAfterFrom cfg (Spec.init cfg) evs) (.rd .timer) = true) :
     (step (stateAfter cfg evs) (.rd .timer)).1.sd = none ∧
     ∀ f, ((step (stateAfter cfg evs) (.rd .timer)).1.tabs f).deferring = false := by
   have hr := rel_after cfg evs h
   have hr' := (step_ok hr (.rd .timer) hi).2
-  have hw : (advance (refAfterFrom (Spec.init cfg) evs) (.rd .timer)).waiting = [] := rfl
+  have hw : (advance cfg (refAfterFrom cfg (Spec.init cfg) evs) (.rd .timer)).waiting = [] := rfl
   refine ⟨?_, fun f => ?_⟩
   · cases hsd : (step (stateAfter cfg evs) (.rd .timer)).1.sd with
     | none => rfl
@@ -148,9 +244,17 @@ theorem timer_clears_everything (cfg : Cfg) (evs : List Ev) (h : InDomain cfg ev
         exact hne (pend_nil_of_pairs_nil hwf (eq_nil_of_forall_not_mem fun x hx => by
           have := (hp x).mp hx; rw [hw] at this; simp at this))
   · rw [hr'.flags]
-    cases hh : held (advance (refAfterFrom (Spec.init cfg) evs) (.rd .timer)) f with
+    cases hh : held (advance cfg (refAfterFrom cfg (Spec.init cfg) evs) (.rd .timer)) f with
     | false => rfl
     | true => have := (hr'.held_iff f).mp hh; rw [hw] at this; simp [holds] at this
+
+/-- non-vacuity: on `exTimerEvs` the last event is an in-domain timer expiry taken while families 0 and 1 are
+    still held; afterwards the machine is gone, no flag is set and both prefixes were announced -/
+example : wf exCfg (refAfterFrom exCfg (Spec.init exCfg) (exTimerEvs.take 3)) (.rd .timer) = true := by decide
+example : (stateAfter exCfg (exTimerEvs.take 3)).sd.isSome = true ∧
+    flagsOf (stateAfter exCfg (exTimerEvs.take 3)).tabs [0, 1, 2] = [0, 1] ∧
+    (stateAfter exCfg exTimerEvs).sd.isSome = false ∧
+    flagsOf (stateAfter exCfg exTimerEvs).tabs [0, 1, 2] = [] := by decide
 
 /-! ## 4. `release_exactly_held`: the release announces exactly the prefixes held, once each -/
 
@@ -158,14 +262,14 @@ theorem timer_clears_everything (cfg : Cfg) (evs : List Ev) (h : InDomain cfg ev
     `announce f paths`: one change per prefix that has a path (`prefixes` is duplicate-free), each
     carrying exactly the paths present, and nothing else for `f`. -/
 theorem release_exactly_held (cfg : Cfg) (evs : List Ev) (h : InDomain cfg evs = true) (i : RIn)
-    (hi : wf cfg (refAfterFrom (Spec.init cfg) evs) (.rd i) = true) (m : RInner)
+    (hi : wf cfg (refAfterFrom cfg (Spec.init cfg) evs) (.rd i) = true) (m : RInner)
     (hm : (stateAfter cfg evs).sd = some m) (f : Fam) (hf : f ∈ relFams (process m i).2) :
     (step (stateAfter cfg evs) (.rd i)).2.changes.filter (·.fam = f) =
       announce f ((stateAfter cfg evs).tabs f).paths := by
   have hr := rel_after cfg evs h
   obtain ⟨_, hw, hne, _, _⟩ := hr.sd_some m hm
   have sp := process_spec m i hw (fun _ => hne) (inputOk_of_wf hr hm hi)
-  simp only [step, hm]
+  simp only [step, hm, obsOf]
   obtain ⟨_, h2, _, _⟩ := applyOuts_spec { stateAfter cfg evs with sd := some (process m i).1 } (process m i).2
   rw [h2, (endDeferralFamilies_spec _ _).2.2, filter_flatMap_announce sp.rel_nodup, if_pos hf]
 
@@ -298,7 +402,7 @@ theorem initial_pending_configured (cfg : Cfg) (x : Peer × List Fam) (h : x ∈
 theorem no_stuck_deferring (cfg : Cfg) (evs : List Ev) (h : InDomain cfg evs = true) :
     (∀ m, (stateAfter cfg evs).sd = some m →
         m ≠ .completed ∧ pendingOf m ≠ [] ∧ ∀ e ∈ pendingOf m, e.2 ≠ []) ∧
-    ((refAfterFrom (Spec.init cfg) evs).waiting = [] → (stateAfter cfg evs).sd = none) := by
+    ((refAfterFrom cfg (Spec.init cfg) evs).waiting = [] → (stateAfter cfg evs).sd = none) := by
   have hr := rel_after cfg evs h
   refine ⟨fun m hm => ?_, fun hw => ?_⟩
   · obtain ⟨a, b, c, _, _⟩ := hr.sd_some m hm
@@ -329,7 +433,7 @@ theorem completes_iff_pending_empty (m : RInner) (i : RIn) (hw : WFp (pendingOf 
 /-- the families released at each step of a run, in order -/
 def releases (tr : List Obs) : List Fam := tr.flatMap fun o => relFams o.outs
 
-theorem releases_nodup_from (cfg : Cfg) (evs : List Ev) (s : St) (r : R) (hr : Rel s r)
+theorem releases_nodup_from (cfg : Cfg) (evs : List Ev) (s : St) (r : R) (hr : Rel cfg s r)
     (h : InDomainFrom cfg r evs = true) (acc : List Fam) (hacc : acc.Nodup)
     (hsub : ∀ f ∈ acc, held r f = false ∧ holds f r.waiting = false) :
     (acc ++ releases (runFrom s evs).2).Nodup := by
@@ -346,20 +450,20 @@ theorem releases_nodup_from (cfg : Cfg) (evs : List Ev) (s : St) (r : R) (hr : R
         cases e with
         | rd i =>
             cases hsd : s.sd with
-            | none => simp [step, hsd, relFams, completeFamilies, endRemaining]
+            | none => simp [step, hsd, obsOf, relFams, completeFamilies, endRemaining]
             | some m =>
                 obtain ⟨_, hw, hne, hp, _⟩ := hr.sd_some m hsd
                 have sp := process_spec m i hw (fun _ => hne) (inputOk_of_wf hr hsd h.1)
-                simp only [step, hsd]
+                simp only [step, hsd, obsOf]
                 refine ⟨sp.rel_nodup, fun f hf => ?_⟩
                 have hp' : ∀ x, x ∈ pairs (pendingOf (process m i).1) ↔ x ∈ (next r (.rd i)).waiting := by
                   intro x; rw [sp.pairs, next_waiting]; exact nextW_congr hp i x
                 have := (sp.rel_mem f).mp hf
                 rw [holdsP_iff_holds hp, holdsP_iff_holds hp', ← hr.held_iff] at this
                 exact ⟨this.1, by simpa using this.2⟩
-        | ins p f n => simp [step, step.obsT, relFams, completeFamilies, endRemaining]
-        | rm p f n => simp [step, step.obsT, relFams, completeFamilies, endRemaining]
-        | drop p f => simp [step, step.obsT, relFams, completeFamilies, endRemaining]
+        | ins p f n => simp [step, obsOf, relFams, completeFamilies, endRemaining]
+        | rm p f n => simp [step, obsOf, relFams, completeFamilies, endRemaining]
+        | drop p f => simp [step, obsOf, relFams, completeFamilies, endRemaining]
       have hsubw : ∀ x, x ∈ (next r e).waiting → x ∈ r.waiting := by
         intro x hx
         cases e with
@@ -387,16 +491,16 @@ theorem releases_nodup_from (cfg : Cfg) (evs : List Ev) (s : St) (r : R) (hr : R
         have h2 := (key.2 a hb).1
         rw [h1] at h2; cases h2
       · intro f hf
-        have hnh : ∀ g, holds g r.waiting = false → holds g (advance r e).waiting = false := by
+        have hnh : ∀ g, holds g r.waiting = false → holds g (advance cfg r e).waiting = false := by
           intro g hg
-          cases hh : holds g (advance r e).waiting with
+          cases hh : holds g (advance cfg r e).waiting with
           | false => rfl
           | true =>
               obtain ⟨p, hp⟩ := holds_iff.mp hh
               have : holds g r.waiting = true := holds_iff.mpr ⟨p, hsubw _ hp⟩
               rw [hg] at this; cases this
-        have hheld : held (advance r e) f = (held (next r e) f && !(releasedNow r (next r e)).contains f) :=
-          held_after f
+        have hheld : held (advance cfg r e) f = (held (next r e) f && !(releasedNow r (next r e)).contains f) :=
+          held_advance cfg r e f
         have hheld2 : held (next r e) f = held r f := by simp [held, hdef, hrl]
         rcases List.mem_append.mp hf with hf | hf
         · obtain ⟨a, b⟩ := hsub f hf
@@ -410,7 +514,7 @@ theorem each_family_released_once (cfg : Cfg) (evs : List Ev) (h : InDomain cfg 
     (releases (run cfg evs)).Nodup := by
   have h0 : relFams (initObs cfg).2.outs = [] := by
     simp only [initObs, init, new]
-    split <;> simp [relFams, completeFamilies, endRemaining, isCompleted]
+    split <;> simp [relFams, completeFamilies, endRemaining, isCompleted, obsOf]
   simp only [run, releases, List.flatMap_cons, h0, List.nil_append]
   have := releases_nodup_from cfg evs _ _ (init_ok cfg).2 h [] List.nodup_nil (by simp)
   simpa [releases] using this
